@@ -47,7 +47,7 @@ fn strip_none(evs: &[Ev]) -> Vec<&Ev> {
 }
 
 /// Compares one scheduled run with the reference.
-fn compare(rc: &ReadCase, refr: &RTrace, st: &mut Stats) -> Result<(), Fail> {
+fn compare(rc: &ReadCase, refr: &RTrace, walked: Option<&Vec<crate::refdec::Walked>>, st: &mut Stats) -> Result<(), Fail> {
     if !rc.script.pauses.is_empty() {
         // scope of the property: temporary EOF only with end-of-stream closing disabled, only at
         // tag boundaries, and (our reading) outside buffered masters. Anything else is out of scope
@@ -73,6 +73,46 @@ fn compare(rc: &ReadCase, refr: &RTrace, st: &mut Stats) -> Result<(), Fail> {
     }
     if sub.rstats.max_buf_offered > cap {
         st.inc("probe_buffer_grew");
+    }
+    // schedule class reached by this run: the set of (phase, depth, innermost master kind) at which
+    // a read ended, plus capacity class and which special events were delivered (DESIGN section 7)
+    {
+        if let Some(walked) = walked {
+            let mut set: Vec<(u8, u8, u8)> = Vec::new();
+            for r in &sub.reads {
+                if let crate::io::ROut::Data(n) = r.out {
+                    let b = r.pos_before + n;
+                    if b < rc.input.len() {
+                        let c = crate::refdec::phase_at(walked, b);
+                        if !set.contains(&c) {
+                            set.push(c);
+                        }
+                    }
+                }
+            }
+            set.sort();
+            let mut f = crate::runner::Fp::default();
+            for (a, b, c) in &set {
+                f.u(*a as u64 | (*b as u64) << 8 | (*c as u64) << 16);
+                st.inc(match a {
+                    0 => "probe_read_ends_on_tag_boundary",
+                    1 => "probe_read_ends_inside_id",
+                    2 => "probe_read_ends_inside_size_field",
+                    3 => "probe_read_ends_inside_payload",
+                    _ => "probe_read_ends_beyond_parsed_region",
+                });
+            }
+            let largest = walked.iter().filter(|w| !w.tag.is_end()).map(|w| w.hdr_len + w.size.unwrap_or(0) as usize).max().unwrap_or(0);
+            let capc = match rc.cfg.capacity {
+                None => 0u64,
+                Some(c) if c < 16 => 1,
+                Some(c) if c < largest => 2,
+                Some(c) if c < rc.input.len() => 3,
+                Some(_) => 4,
+            };
+            f.u(capc).u((sub.rstats.pauses > 0) as u64).u((sub.rstats.interrupted > 0) as u64).u(refr.first_error().is_some() as u64);
+            st.class(f.0);
+        }
     }
     if sub.budget_exceeded || sub.step_cap_hit {
         fail!("livelock", "the scheduled run exceeded its call budget (read calls {}, api calls {}); reference ended after {} events", sub.read_calls, sub.api_calls, refr.evs.len());
@@ -272,9 +312,15 @@ impl Check for C04 {
                 fail!("eof-closing-switch", "with end-of-stream closing disabled the slice run is not the default run minus closing Ends\n default:  {}\n disabled: {}", full.short(60), refr.short(60));
             }
         }
+        let walked = if c.rc.input.len() <= 600 {
+            let tags: Vec<crate::val::TagV> = crate::val::flatten(&refr.ok_prefix().into_iter().map(|(t, _)| t).collect::<Vec<_>>());
+            crate::refdec::walk(&c.rc.spec, &c.rc.input, &tags, 0).ok().map(|w| w.0)
+        } else {
+            None
+        };
         match &c.sweep {
             None => {
-                compare(&c.rc, &refr, st)?;
+                compare(&c.rc, &refr, walked.as_ref(), st)?;
                 st.inc("schedules");
             }
             Some(_) => {
@@ -282,7 +328,7 @@ impl Check for C04 {
                 st.inc("sweeps");
                 for rc in subs {
                     st.inc("schedules");
-                    if let Err(f) = compare(&rc, &refr, st) {
+                    if let Err(f) = compare(&rc, &refr, walked.as_ref(), st) {
                         return Err(Fail::new(&f.clause, format!("[sweep member: capacity {:?}, script {}] {}", rc.cfg.capacity, rc.script.to_j(), f.detail)));
                     }
                 }
